@@ -30,6 +30,25 @@ def check(cps: $$CPS$$) -> bool:
             return True          # outside the canonical form
     b1 = hc.canon_block(IND, t); c1 = "".join(x + chr(10) for x in t)
     b2 = hc.canon_block("", u); c2 = "".join(x + chr(10) for x in u)
+    if K1.endswith("!"):
+        # the second documented command (a definition) follows a DECLARATION that still waits for its implementing definition. Which
+        # entries that yields is not what C01 is about (and scoped out of C02/C03); C01's clause is: both doccomment texts reach the
+        # page, each line once and in order, indented as one paragraph of a directive
+        import spec
+        unit = prog.documented_unit(K1[:-1], b1, c1, "1")
+        k = next(i for i, c_ in enumerate(unit) if c_[0] is not None)
+        cmds = unit[:k + 1] + prog.documented_unit(K2, b2, c2, "2") + [c_ for c_ in unit[k + 1:] if c_[2] in ("cpp_end_class",)]
+        got = prog.real_page(cmds, Settings())
+        ok = (chr(10) + spec.para(1, c1) in got or chr(10) + spec.para(2, c1) in got) and (chr(10) + spec.para(1, c2) in got or chr(10) + spec.para(2, c2) in got)
+        if K1 in ("cpp_member!", "cpp_constructor!"):
+            # C09's clause for the same situation: the member's signature shows the parameters of the definition that follows its
+            # declaration (without name and self), with the macro note iff that definition is a macro
+            mname = "m" if K1 == "cpp_member!" else "CTOR"
+            impl = prog.documented_unit(K2, b2, c2, "2")[0]
+            params = [a_[1] for a_ in impl[3][2:]]
+            ok = ok and (chr(10) + "   .. py:method:: " + mname + "(" + ", ".join(params) + ")" + chr(10)) in got
+            ok = ok and ((spec.SENT["method_macro"] in got) == (K2 == "macro"))
+        return hc.report(ok, cps=cps)
     cmds = prog.documented_unit(K1, b1, c1, "1") + prog.documented_unit(K2, b2, c2, "2")
     got = prog.real_page(cmds, Settings())
     exp = prog.spec_page(cmds)
